@@ -40,6 +40,9 @@ pub struct Sc {
     pub envp: Vec<String>,
     pub stack_len: u64,
     pub blockers: Vec<(u64, u64)>,
+    /// C17: the pre-existing areas were created 16 bytes long and grown to their length by mem_resize_section
+    #[serde(default)]
+    pub grown_blockers: bool,
 }
 
 pub struct E4Engine;
@@ -116,6 +119,12 @@ pub fn gen_img(r: &mut Rng, entry_code: &[u8], max_segs: u64) -> ImgSpec {
     let ne = r.below(4);
     for _ in 0..ne {
         match r.below(7) {
+            0 if r.chance(1, 2) => {
+                // PT_GNU_RELRO over the whole of a segment (as lld lays it out) or over its first part (GNU ld)
+                let i = r.usize(segs.len());
+                let len = if r.chance(1, 2) { segs[i].memsz } else { r.range(1, segs[i].memsz) };
+                extras.push(ExtraPh { p_type: 0x6474_e552, flags: 4, inside: Some(i), off: 0, len });
+            }
             0 => extras.push(ExtraPh { p_type: 0x6474_e551, flags: 6, inside: None, off: 0, len: 0 }),
             1 => extras.push(ExtraPh { p_type: 0, flags: 0, inside: None, off: 0, len: 0 }),
             k => {
@@ -146,7 +155,9 @@ pub fn gen_img(r: &mut Rng, entry_code: &[u8], max_segs: u64) -> ImgSpec {
             let seg = r.usize(segs.len());
             let off = r.below(segs[seg].memsz);
             let (seg, off) = if k > 0 && r.chance(1, 5) { (syms[0].seg, syms[0].off) } else { (seg, off) };
-            syms.push(SymSpec { name: if r.chance(1, 6) { None } else { Some(format!("sym_{k}_{}", r.below(1000))) }, seg, off, defined: !r.chance(1, 6) });
+            // every symbol type a linker emits (NOTYPE, OBJECT, FUNC, SECTION, FILE, TLS-less), local / global / weak
+            let info = if r.chance(1, 2) { None } else { Some(((*r.pick(&[0u8, 1, 2])) << 4) | *r.pick(&[0u8, 1, 2, 3, 4])) };
+            syms.push(SymSpec { name: if r.chance(1, 6) { None } else { Some(format!("sym_{k}_{}", r.below(1000))) }, seg, off, defined: !r.chance(1, 6), info });
         }
     }
     ImgSpec { segs, ph_order, file_order, extras, entry_seg, entry_off, syms, sections, entry_code: to_hex(entry_code) }
@@ -154,12 +165,27 @@ pub fn gen_img(r: &mut Rng, entry_code: &[u8], max_segs: u64) -> ImgSpec {
 
 fn gen_c15(r: &mut Rng, idx: u64) -> Sc {
     if idx < BUNDLED.len() as u64 {
-        return Sc { kind: "c15".into(), base: Base::Bundled { name: BUNDLED[idx as usize].0.to_string() }, muts: vec![], argv: vec![], envp: vec![], stack_len: 0, blockers: vec![] };
+        return Sc { kind: "c15".into(), base: Base::Bundled { name: BUNDLED[idx as usize].0.to_string() }, muts: vec![], argv: vec![], envp: vec![], stack_len: 0, blockers: vec![], grown_blockers: false };
     }
-    Sc { kind: "c15".into(), base: Base::Gen { spec: gen_img(r, &[], 8) }, muts: vec![], argv: vec![], envp: vec![], stack_len: 0, blockers: vec![] }
+    Sc { kind: "c15".into(), base: Base::Gen { spec: gen_img(r, &[], 8) }, muts: vec![], argv: vec![], envp: vec![], stack_len: 0, blockers: vec![], grown_blockers: false }
 }
 
 fn strings(r: &mut Rng, n: u64, long_ok: bool) -> Vec<String> {
+    let v = strings_distinct(r, n, long_ok);
+    // now and then the same text again (`prog -v -v`, two identical environment entries)
+    let mut out: Vec<String> = Vec::new();
+    for s in v {
+        if !out.is_empty() && r.chance(1, 6) {
+            let again = r.pick(&out).clone();
+            out.push(again);
+        } else {
+            out.push(s);
+        }
+    }
+    out
+}
+
+fn strings_distinct(r: &mut Rng, n: u64, long_ok: bool) -> Vec<String> {
     (0..n)
         .map(|_| match r.below(10) {
             0 => String::new(),
@@ -217,7 +243,7 @@ fn gen_c17(r: &mut Rng, thorough: bool) -> Sc {
     let pops = (3 + argc + envc) as usize;
     let code = observer_code(pops);
     let base = if code.len() <= 0x2000 && r.chance(1, 2) { Base::Gen { spec: gen_img(r, &code, 4) } } else { Base::New };
-    Sc { kind: "c17".into(), base, muts: vec![], argv, envp, stack_len, blockers }
+    Sc { kind: "c17".into(), base, muts: vec![], argv, envp, stack_len, blockers, grown_blockers: r.chance(1, 3) }
 }
 
 /// the enumerated storage faults on the bundled images: every header truncation offset, a stride
@@ -350,7 +376,7 @@ fn random_mutation(r: &mut Rng, bytes: &[u8]) -> Mutation {
 
 fn gen_c16(r: &mut Rng, idx: u64) -> Sc {
     let en = enumerated();
-    let mk = |base: Base, muts: Vec<Mutation>| Sc { kind: "c16".into(), base, muts, argv: vec![], envp: vec![], stack_len: 0, blockers: vec![] };
+    let mk = |base: Base, muts: Vec<Mutation>| Sc { kind: "c16".into(), base, muts, argv: vec![], envp: vec![], stack_len: 0, blockers: vec![], grown_blockers: false };
     if (idx as usize) < en.len() {
         let (bi, m) = &en[idx as usize];
         return mk(Base::Bundled { name: BUNDLED[*bi].0.to_string() }, m.clone());
@@ -601,7 +627,12 @@ fn run_c17(sc: &Sc, ctx: &mut Ctx) {
         }
     };
     for (s, l) in sc.blockers.iter() {
-        let _ = catch(|| ax.mem_init_zero(*s, *l));
+        if sc.grown_blockers && *l > 16 {
+            let _ = catch(|| ax.mem_init_zero(*s, 16));
+            let _ = catch(|| ax.mem_resize_section(*s, *l));
+        } else {
+            let _ = catch(|| ax.mem_init_zero(*s, *l));
+        }
     }
     let pre: Vec<(u64, u64)> = ax.verif_area_extents().iter().map(|a| (a.0, a.1)).collect();
     let shape = format!(
@@ -750,6 +781,24 @@ fn run_c17(sc: &Sc, ctx: &mut Ctx) {
     }
     let mut si = 0usize;
     let all: Vec<&String> = sc.argv.iter().chain(sc.envp.iter()).collect();
+    // every entry has its own copy: the strings' byte ranges (terminator included) are pairwise disjoint
+    {
+        let mut ranges: Vec<(u64, u64)> = Vec::new();
+        let mut k = 0usize;
+        for (v, kind) in got.iter().zip(want_kinds.iter()) {
+            if *kind == "argv" || *kind == "envp" {
+                ranges.push((*v, all[k].len() as u64 + 1));
+                k += 1;
+            }
+        }
+        ranges.sort();
+        for w in ranges.windows(2) {
+            if intersects(w[0].0, w[0].1, w[1].0, w[1].1) {
+                ctx.dev("C17", format!("C17|strings_share_memory|{shape}"), format!("the strings at {:#x} (+{}) and {:#x} (+{}) are not disjoint copies", w[0].0, w[0].1, w[1].0, w[1].1));
+                break;
+            }
+        }
+    }
     for (v, kind) in got.iter().zip(want_kinds.iter()) {
         match *kind {
             "argc" => {
